@@ -1002,6 +1002,8 @@ func (r *Runner) subshell(background bool) *Runner {
 		Dir:            r.Dir,
 		tempDir:        r.tempDir,
 		Params:         r.Params,
+		inFunc:         r.inFunc,
+		inSource:       r.inSource,
 		callHandler:    r.callHandler,
 		execHandler:    r.execHandler,
 		openHandler:    r.openHandler,
